@@ -56,7 +56,9 @@ def run_one(m, slot):
         ev = os.path.join(d, "evidence")
         os.makedirs(ev)
         env = dict(os.environ, RFSM_EVIDENCE_DIR=ev, RFSM_TARGET_DIR=os.path.join(VERIF, ".cache", "target-selftest-%d" % (slot + int(os.environ.get("RFSM_SELFTEST_SLOT_BASE", "0")))))
-        if m["kind"] == "benign" and os.environ.get("RFSM_SELFTEST_CROSS") == "1":
+        if m["kind"] == "benign" and os.environ.get("RFSM_SELFTEST_CROSS") == "1" and "-repair-" not in m["id"]:
+            # (`*-repair-*` entries repair a recorded defect: they change behaviour on purpose and only their own property's check
+            #  is expected to stay silent)
             # a behaviour-preserving edit must be silent for EVERY property, not only for the one it was written for
             alarms = []
             for p in ["C%02d" % i for i in range(1, 21)]:
@@ -94,6 +96,7 @@ def main():
     prop = None
     jobs = 4
     out_json = None
+    kind = None
     i = 0
     while i < len(args):
         if args[i] == "--only":
@@ -104,9 +107,11 @@ def main():
             jobs = int(args[i + 1]); i += 2
         elif args[i] == "--json":
             out_json = args[i + 1]; i += 2
+        elif args[i] == "--kind":
+            kind = args[i + 1]; i += 2
         else:
             i += 1
-    ms = [m for m in mutants.ALL if (only is None or only in m["id"]) and (prop is None or m["prop"] == prop)]
+    ms = [m for m in mutants.ALL if (only is None or only in m["id"]) and (prop is None or m["prop"] == prop) and (kind is None or m["kind"] == kind)]
     results = []
     with cf.ThreadPoolExecutor(max_workers=jobs) as ex:
         futs = [ex.submit(run_one, m, k % jobs) for k, m in enumerate(ms)]
